@@ -6,7 +6,9 @@ import (
 	"errors"
 	"fmt"
 	"io"
+	"net"
 	"net/http"
+	"os"
 	"strconv"
 	"strings"
 	"time"
@@ -29,6 +31,23 @@ import (
 // Jitter is -1 (no RNG), intervals are microseconds, MaxElapsedTime is unset / 1 ns / one hour, so
 // no outcome depends on the wall clock; a wait of at least "patience" (0.9 s) is never slept:
 // OnRetry cancels the context, which the select then observes long before the timer.
+//
+// Injected errors (transport, validator, reader, GetBody) are VALUES identified by an index; the index
+// also fixes the character of the value (scriptedErr): a plain error, one whose type says Temporary() or
+// Timeout(), one that wraps io.EOF / io.ErrUnexpectedEOF / os.ErrDeadlineExceeded, a *net.OpError around
+// a wrapped io.EOF.  The properties quantify over all errors; what they say depends on WHERE the error
+// arose, never on what it looks like, so the model takes the index as opaque and the projection
+// (connErrOf) finds the injected value by identity (errors.As on the harness's own types) before it asks
+// errors.Is about anything else.
+//
+// The same *Client may have produced other Connections before the one under test (cfg.At(6) throw-away
+// NewConnection calls): the configuration a Connection runs with is a function of the Client's fields,
+// however often NewConnection normalised them.
+//
+// Attempts may take time (cfg.At(7): RoundTrip / the end of the body sleep a few ms).  One-sided timing
+// observation, for every OnRetry that is followed by a request: the monotonic time from the end of the
+// OnRetry call (the timer is armed after it) to the start of that RoundTrip is at least the wait handed
+// to OnRetry - "the wait actually used".  A timer never fires early, so this cannot fail on timing.
 
 func init() { families["connect"] = family{gen: genConnect, exec: execConnect} }
 
@@ -55,6 +74,51 @@ func (b *genBody) Read(p []byte) (int, error) {
 }
 func (b *genBody) Close() error { b.used = true; return nil }
 
+// charErr is an injected error value with a character; idx/1000 selects it (see scriptedErr).
+type charErr struct{ idx uint64 }
+
+func (e charErr) kind() uint64    { return e.idx / 1000 }
+func (e charErr) Error() string   { return fmt.Sprintf("scripted error %d", e.idx) }
+func (e charErr) Temporary() bool { return e.kind() == 1 }
+func (e charErr) Timeout() bool   { return e.kind() == 2 }
+func (e charErr) Unwrap() error {
+	switch e.kind() {
+	case 3, 6:
+		return io.EOF
+	case 4:
+		return io.ErrUnexpectedEOF
+	case 5:
+		return os.ErrDeadlineExceeded
+	}
+	return nil
+}
+
+const connErrKinds = 7
+
+// scriptedErr is the injected error value with index n.  n/1000: 0 plain (codeErr) | 1 Temporary() is true |
+// 2 Timeout() is true | 3 wraps io.EOF | 4 wraps io.ErrUnexpectedEOF | 5 wraps os.ErrDeadlineExceeded (whose
+// Timeout() is true) | 6 a *net.OpError whose Err wraps io.EOF (what a dropped TCP connection looks like).
+func scriptedErr(n uint64) error {
+	switch n / 1000 {
+	case 0:
+		return codeErr{n}
+	case 6:
+		return &net.OpError{Op: "read", Net: "tcp", Err: charErr{n}}
+	default:
+		return charErr{n}
+	}
+}
+
+// connErrIdx draws the index of an injected error: a small number above base, of a random character.
+func connErrIdx(r *rng.R, c *Ctx, base int) uint64 {
+	kind := 0
+	if r.Chance(1, 2) {
+		kind = 1 + r.Intn(connErrKinds-1)
+	}
+	c.Count(fmt.Sprintf("error-character:%d", kind))
+	return uint64(base + r.Intn(5) + 1000*kind)
+}
+
 type connRun struct {
 	items    []val.V
 	steps    []val.V
@@ -68,6 +132,12 @@ type connRun struct {
 	gbAfter  int
 	gbErr    uint64
 	gbKind   uint64
+
+	rtDelay, bodyDelay time.Duration // how long RoundTrip / the end of a body take
+	pending            bool          // OnRetry was called and no request was seen since
+	retryAt            time.Time     // when that OnRetry call ended
+	retryWait          time.Duration // the wait it was handed
+	gaps               []val.V       // per OnRetry followed by a request: did at least the wait pass?
 }
 
 type scriptBody struct {
@@ -81,11 +151,14 @@ type scriptBody struct {
 }
 
 func (s *scriptBody) end() error {
+	if s.run != nil && s.run.bodyDelay > 0 {
+		time.Sleep(s.run.bodyDelay)
+	}
 	switch s.ending.At(0).Num() {
 	case 0, 3:
 		return io.EOF
 	case 1:
-		return codeErr{s.ending.At(1).Num()}
+		return scriptedErr(s.ending.At(1).Num())
 	default:
 		if s.ending.At(1).Num() == 1 {
 			// blocked in Read until somebody else cancels the request context
@@ -131,6 +204,7 @@ func (s *scriptBody) Read(p []byte) (int, error) {
 func (s *scriptBody) Close() error { return nil }
 
 func (r *connRun) RoundTrip(req *http.Request) (*http.Response, error) {
+	started := time.Now()
 	if err := r.ctx.Err(); err != nil && !r.overrun {
 		// like a real transport: a request on a done context fails with the context's error.  This is only
 		// reached if the select of Connect picked an expired timer over the done context, which needs
@@ -166,15 +240,22 @@ func (r *connRun) RoundTrip(req *http.Request) (*http.Response, error) {
 		return nil, r.ctx.Err()
 	}
 	r.items = append(r.items, val.L(val.N(0), val.List(hdr), body))
+	if r.pending {
+		r.pending = false
+		r.gaps = append(r.gaps, val.Bool(started.Sub(r.retryAt) >= r.retryWait))
+	}
 	st := r.steps[r.idx]
 	r.idx++
+	if r.rtDelay > 0 {
+		time.Sleep(r.rtDelay)
+	}
 	ok := func(b io.ReadCloser) *http.Response {
 		return &http.Response{StatusCode: 200, Status: "200 OK", Proto: "HTTP/1.1", ProtoMajor: 1, ProtoMinor: 1,
 			Header: http.Header{"Content-Type": {"text/event-stream"}}, Body: b, Request: req}
 	}
 	switch st.At(0).Num() {
 	case 0:
-		return nil, codeErr{st.At(1).Num()}
+		return nil, scriptedErr(st.At(1).Num())
 	case 1:
 		r.cancel()
 		return nil, r.ctx.Err()
@@ -189,7 +270,10 @@ func (r *connRun) RoundTrip(req *http.Request) (*http.Response, error) {
 
 func connErrOf(err error) val.V {
 	var ce codeErr
+	var he charErr
 	switch {
+	case errors.As(err, &he): // identity of an injected value first: it may wrap any of the sentinels below
+		return val.L(val.N(2), val.N(he.idx))
 	case err == io.EOF:
 		return val.L(val.N(0))
 	case errors.Is(err, sse.ErrUnexpectedEOF):
@@ -240,6 +324,8 @@ func execConnect(in val.V) val.V {
 		}
 		bk := cfg.At(1)
 		run.gbKind, run.gbAfter, run.gbErr = bk.At(0).Num(), bk.At(1).Int(), bk.At(2).Num()
+		run.rtDelay = time.Duration(cfg.At(7).At(0).Num()) * time.Microsecond
+		run.bodyDelay = time.Duration(cfg.At(7).At(1).Num()) * time.Microsecond
 
 		var body io.Reader
 		method := http.MethodGet
@@ -258,7 +344,7 @@ func execConnect(in val.V) val.V {
 		if run.gbKind >= 3 {
 			req.GetBody = func() (io.ReadCloser, error) {
 				if run.gbKind == 4 && run.gbCalls >= run.gbAfter {
-					return nil, codeErr{run.gbErr}
+					return nil, scriptedErr(run.gbErr)
 				}
 				run.gbCalls++
 				return newGenBody(run.gbCalls), nil
@@ -275,7 +361,7 @@ func execConnect(in val.V) val.V {
 			ResponseValidator: func(*http.Response) error {
 				if e := run.reject; e != 0 {
 					run.reject = 0
-					return codeErr{e}
+					return scriptedErr(e)
 				}
 				return nil
 			},
@@ -294,7 +380,11 @@ func execConnect(in val.V) val.V {
 				if run.patience > 0 && int64(d) >= run.patience {
 					run.cancel()
 				}
+				run.pending, run.retryWait, run.retryAt = true, d, time.Now()
 			}
+		}
+		for i := cfg.At(6).Int(); i > 0; i-- {
+			client.NewConnection(req) // other Connections of the same Client, never connected
 		}
 		conn := client.NewConnection(req)
 		if cfg.At(5).Truth() {
@@ -319,12 +409,12 @@ func execConnect(in val.V) val.V {
 		case <-time.After(30 * time.Second):
 			cancel()
 			<-done
-			return val.L(val.List(run.items), val.L(val.S("Connect did not return within 30 s")))
+			return val.L(val.List(run.items), val.L(val.S("Connect did not return within 30 s")), val.List(run.gaps))
 		}
 		if run.overrun {
-			return val.L(val.List(run.items), val.L())
+			return val.L(val.List(run.items), val.L(), val.List(run.gaps))
 		}
-		return val.L(val.List(run.items), val.L(connRetOf(ret)))
+		return val.L(val.List(run.items), val.L(connRetOf(ret)), val.List(run.gaps))
 	})
 }
 
@@ -411,7 +501,7 @@ func connStream(r *rng.R, body string, c *Ctx) val.V {
 		ending = val.L(val.N(0))
 		c.Count("ending:eof")
 	case k < 16:
-		ending = val.L(val.N(1), val.N(uint64(100+r.Intn(5))))
+		ending = val.L(val.N(1), val.N(connErrIdx(r, c, 100)))
 		c.Count("ending:error")
 	case k == 16:
 		// the oversized line starts a group of its own: bufio gives up on the whole group, so fields that share it
@@ -430,13 +520,13 @@ func connAttempt(r *rng.R, c *Ctx, maxRetryMs int, bigRetry bool) val.V {
 	switch k := r.Intn(20); {
 	case k < 3:
 		c.Count("attempt:transport-error")
-		return val.L(val.N(0), val.N(uint64(200+r.Intn(5))))
+		return val.L(val.N(0), val.N(connErrIdx(r, c, 200)))
 	case k == 3:
 		c.Count("attempt:cancel-in-roundtrip")
 		return val.L(val.N(1))
 	case k == 4:
 		c.Count("attempt:rejected")
-		return val.L(val.N(2), val.N(uint64(300+r.Intn(5))))
+		return val.L(val.N(2), val.N(connErrIdx(r, c, 300)))
 	default:
 		c.Count("attempt:stream")
 		return connStream(r, connBody(r, maxRetryMs, bigRetry), c)
@@ -464,7 +554,7 @@ func connBackoff(r *rng.R) (val.V, int64) {
 	return val.L(val.Z(ini), vrat(mul.n, mul.d), vrat(-1, 1), val.Z(maxI), val.Z(maxE), val.Z(maxR)), maxR
 }
 
-func connBodyKind(r *rng.R) val.V {
+func connBodyKind(r *rng.R, c *Ctx) val.V {
 	switch r.Intn(8) {
 	case 0:
 		return val.L(val.N(1), val.N(0), val.N(0))
@@ -473,10 +563,20 @@ func connBodyKind(r *rng.R) val.V {
 	case 2, 3:
 		return val.L(val.N(3), val.N(0), val.N(0))
 	case 4:
-		return val.L(val.N(4), val.Int(r.Intn(4)), val.N(uint64(400+r.Intn(5))))
+		return val.L(val.N(4), val.Int(r.Intn(4)), val.N(connErrIdx(r, c, 400)))
 	default:
 		return val.L(val.N(0), val.N(0), val.N(0))
 	}
+}
+
+// how many other Connections the Client produced before the one under test
+func connOtherConnections(r *rng.R, c *Ctx) val.V {
+	n := 0
+	if r.Chance(1, 2) {
+		n = 1 + r.Intn(2)
+	}
+	c.Count(fmt.Sprintf("other-connections:%d", n))
+	return val.Int(n)
 }
 
 func genConnect(c *Ctx) {
@@ -503,7 +603,7 @@ func genConnect(c *Ctx) {
 		for j := range steps {
 			steps[j] = connAttempt(r, c, 2, bigRetry)
 		}
-		bk := connBodyKind(r)
+		bk := connBodyKind(r, c)
 		c.Count(fmt.Sprintf("body-kind:%d", bk.At(0).Num()))
 		c.Count(fmt.Sprintf("max-retries:%d", maxR))
 		c.Count(fmt.Sprintf("steps:%d", nsteps))
@@ -511,14 +611,49 @@ func genConnect(c *Ctx) {
 		if before {
 			c.Count("cancelled-before-connect")
 		}
-		c.Emit(val.L(val.L(bo, bk, val.Bool(onRetry), hdr, patience, val.Bool(before)), val.List(steps)))
+		others := connOtherConnections(r, c)
+		c.Emit(val.L(val.L(bo, bk, val.Bool(onRetry), hdr, patience, val.Bool(before), others, val.L(val.N(0), val.N(0))), val.List(steps)))
+	}
+	// attempts that take time (a slow transport, a response that stays up for a while before it ends) followed by waits
+	// of a few milliseconds; few of them, they are slept
+	nSlow := 12
+	if c.Thorough {
+		nSlow = 100
+	}
+	for i := 0; i < nSlow; i++ {
+		ini := int64(1+r.Intn(4)) * 1_000_000
+		mul := rng.Pick(r, []ratio{{1, 1}, {3, 2}, {2, 1}})
+		var maxI int64
+		if r.Chance(1, 3) {
+			maxI = ini * 2
+		}
+		maxR := rng.Pick(r, []int64{0, 2, 3, 5})
+		bo := val.L(val.Z(ini), vrat(mul.n, mul.d), vrat(-1, 1), val.Z(maxI), val.Z(0), val.Z(maxR))
+		steps := make([]val.V, 2+r.Intn(3))
+		for j := range steps {
+			steps[j] = connAttempt(r, c, 2, false)
+		}
+		var rtDelay, bodyDelay uint64
+		switch r.Intn(3) {
+		case 0:
+			rtDelay = uint64(2000 + r.Intn(1500))
+		case 1:
+			bodyDelay = uint64(2000 + r.Intn(1500))
+		default:
+			rtDelay, bodyDelay = uint64(1000+r.Intn(1000)), uint64(1000+r.Intn(1000))
+		}
+		bk := connBodyKind(r, c)
+		c.Count("slow-attempts")
+		c.Emit(val.L(val.L(bo, bk, val.Bool(true), val.L(), val.L(val.Z(connPatience)), val.Bool(false), connOtherConnections(r, c),
+			val.L(val.N(rtDelay), val.N(bodyDelay))), val.List(steps)))
 	}
 	// endings after every byte position of short streams, clean and erroneous and cancelled (C11)
 	shorts := []string{"data: a\n\nid: 1\n\n", "id: 5\ndata: x\r\n\r\n: c\n", "\xef\xbb\xbfretry: 1\n\ndata: y\n\n", "data: a\n\n\n", "\n", "id: 3\revent: t\r\r"}
 	for _, s := range shorts {
 		for cut := 0; cut <= len(s); cut++ {
-			for e := 0; e < 3; e++ {
-				ending := []val.V{val.L(val.N(0)), val.L(val.N(1), val.N(101)), val.L(val.N(2), val.N(0))}[e]
+			for e := 0; e < 4; e++ {
+				// clean end, a plain read error, cancellation, a read error that wraps io.EOF
+				ending := []val.V{val.L(val.N(0)), val.L(val.N(1), val.N(101)), val.L(val.N(2), val.N(0)), val.L(val.N(1), val.N(3101))}[e]
 				first := val.L(val.N(3), val.S(s[:cut]), ending, connChunks(r, cut), val.Bool(r.Bool()))
 				second := val.L(val.N(3), val.S("data: after\n\n"), val.L(val.N(0)), val.L(), val.Bool(false))
 				bo := val.L(val.Z(2000), vrat(1, 1), vrat(-1, 1), val.Z(0), val.Z(0), val.Z(1))
